@@ -52,36 +52,46 @@ _LEN_LEMMA = {}
 
 
 def len_lemmas(formulas):
+    """the lemmas  Length(t) <= 0 => Length(t) == 0  for every t whose length occurs in the formulas.  The ASTs are walked
+    through the C API on raw handles (no Python wrapper per node: the wrapped walk cost more than the solver calls),
+    memoised per AST id; the top-level formulas are kept alive so that ids are never recycled."""
+    from z3 import z3core as C
+    zctx = z3.main_ctx()
+    cref = zctx.ref()
     ids = set()
     for f in formulas:
         if not z3.is_expr(f):
             continue
-        stack = [(f, False)]
-        while stack:
-            e, done = stack.pop()
-            i = e.get_id()
-            if i in _LEN_MEMO and not done:
-                continue
-            if not z3.is_app(e):
-                _LEN_MEMO[i] = frozenset()
-                _LEN_KEEP.append(e)
-                continue
-            if not done:
-                stack.append((e, True))
-                for c in e.children():
-                    if c.get_id() not in _LEN_MEMO:
-                        stack.append((c, False))
-                continue
-            acc = set()
-            if e.decl().kind() == z3.Z3_OP_SEQ_LENGTH:
-                a = e.arg(0)
-                _LEN_TERMS[a.get_id()] = a
-                acc.add(a.get_id())
-            for c in e.children():
-                acc |= _LEN_MEMO.get(c.get_id(), frozenset())
-            _LEN_MEMO[i] = frozenset(acc)
-            _LEN_KEEP.append(e)
-        ids |= _LEN_MEMO.get(f.get_id(), frozenset())
+        fid = f.get_id()
+        if fid not in _LEN_MEMO:
+            _LEN_KEEP.append(f)
+            stack = [(f.as_ast(), False)]
+            while stack:
+                a, done = stack.pop()
+                i = C.Z3_get_ast_id(cref, a)
+                if not done and i in _LEN_MEMO:
+                    continue
+                if C.Z3_get_ast_kind(cref, a) != z3.Z3_APP_AST:
+                    _LEN_MEMO[i] = frozenset()
+                    continue
+                app = C.Z3_to_app(cref, a)
+                n = C.Z3_get_app_num_args(cref, app)
+                kids = [C.Z3_get_app_arg(cref, app, k) for k in range(n)]
+                if not done:
+                    stack.append((a, True))
+                    for c in kids:
+                        if C.Z3_get_ast_id(cref, c) not in _LEN_MEMO:
+                            stack.append((c, False))
+                    continue
+                acc = set()
+                if n == 1 and C.Z3_get_decl_kind(cref, C.Z3_get_app_decl(cref, app)) == z3.Z3_OP_SEQ_LENGTH:
+                    t = z3.z3._to_expr_ref(kids[0], zctx)
+                    _LEN_TERMS[t.get_id()] = t
+                    acc.add(t.get_id())
+                for c in kids:
+                    acc |= _LEN_MEMO.get(C.Z3_get_ast_id(cref, c), frozenset())
+                _LEN_MEMO[i] = frozenset(acc) if acc else _EMPTY
+        ids |= _LEN_MEMO[fid]
     res = []
     for i in sorted(ids):
         lem = _LEN_LEMMA.get(i)
@@ -90,6 +100,9 @@ def len_lemmas(formulas):
             lem = _LEN_LEMMA[i] = z3.Implies(n <= 0, n == 0)
         res.append(lem)
     return res
+
+
+_EMPTY = frozenset()
 
 
 class Path:
@@ -259,18 +272,51 @@ class Path:
         return res
 
     def _quick_unsat(self, f):
+        key = (tuple(a.get_id() for a in self.pc), tuple(id(h) for h in self.hyps),
+               tuple(x.get_id() for x in self.index_terms), ('quick', f.get_id()))
+        hit = _FEAS_CACHE.get(key)
+        if hit is not None:
+            return hit[0]
         self._sync()
         s = z3.Solver()
-        s.set('rlimit', 30000)
+        s.set('rlimit', 8000)
         for a in self._solver.assertions():
             s.add(a)
         s.add(f)
         for a in len_lemmas(list(self._solver.assertions()) + [f]):
             s.add(a)
         try:
-            return s.check() == z3.unsat
+            r = s.check() == z3.unsat
         except z3.Z3Exception:
+            r = False
+        STATS['solver_calls'] += 1
+        _FEAS_CACHE[key] = (r, list(self.pc), list(self.hyps), list(self.index_terms), [f])
+        return r
+
+    def _cvc5_says_sat(self):
+        import subprocess
+        import tempfile
+        self._sync()
+        s = z3.Solver()
+        for a in self._solver.assertions():
+            s.add(a)
+        fn = None
+        try:
+            with tempfile.NamedTemporaryFile('w', suffix='.smt2', delete=False) as f:
+                f.write('(set-logic ALL)\n' + s.to_smt2())
+                fn = f.name
+            p = subprocess.run(['/usr/bin/cvc5', '--strings-exp', '--tlimit=3000', fn], capture_output=True, text=True,
+                               timeout=8)
+            out = p.stdout.strip().splitlines()
+            return bool(out) and out[0].strip() == 'sat'
+        except Exception:
             return False
+        finally:
+            if fn:
+                try:
+                    os.unlink(fn)
+                except OSError:
+                    pass
 
     def check(self, *extra, timeout_ms=None, proof_step=False):
         """sat / unsat / unknown of pc + extra.  proof_step: the answer `unsat` is needed for a proof (meta-rule side
@@ -348,8 +394,13 @@ class Path:
             # quickly, the path condition itself is reported inconsistent - then no side is pruned (harmless if the
             # path really is infeasible).  A small resource limit: `unsat` answers are fast, anything else means "fine".
             if self._quick_unsat(z3.Not(cond)):
+                # z3 reports the path condition itself inconsistent.  An independent solver is asked (rare event):
+                # if it finds the path feasible the run stops as undecided (solver disagreement), otherwise the path
+                # is infeasible and is dropped as a whole.
                 STATS['both_unsat'] = STATS.get('both_unsat', 0) + 1
-                rf = z3.unsat
+                if self._cvc5_says_sat():
+                    raise Unsupported('solver disagreement: z3 refutes a path condition that cvc5 finds satisfiable')
+                raise Infeasible()
             else:
                 if os.environ.get('PYVC_DEBUG_BRANCH'):
                     print(f'   [branch] {str(cond)[:70]} decided False (cond unsat) npc={len(self.pc)} nhyps={len(self.hyps)}')
